@@ -46,6 +46,10 @@ def run(case, agg):
     with fresh_dir("c16") as d:
         inp, sto, dfu = (os.path.join(d, x) for x in ("e.suit", "storage.hex", "dfu.hex"))
         open(inp, "wb").write(data)
+        if case["i"] % 3 == 1:
+            from .. import impl
+            impl.prefill(sto)
+            impl.prefill(dfu)
         try:
             if seed_slice(case["i"], 5):
                 cmd_image.main(image="update", input_file=inp, storage_output_file=sto, dfu_partition_output_file=dfu,
